@@ -314,6 +314,71 @@ def segment_level(ck, rnd, n):
         ck.sample('segment-cache', cases[0])
 
 
+def segment_query_sweep(ck):
+    """every public query of a Line / QuadraticBezier / CubicBezier: asked on an object that was built with other control points, asked everything once,
+    and then had its control points reassigned (also to values that hash like the old ones), it answers what a newly built segment answers - and so do the
+    objects derived from it (reversed, split, cropped, translated, scaled)"""
+    probe = sp.Line(-20 - 13j, 25 + 17j)
+
+    def queries(sg):
+        L = sg.length()
+        out = {
+            'point': sg.point(0.3), 'derivative1': sg.derivative(0.3), 'derivative2': sg.derivative(0.3, 2) if not isinstance(sg, sp.Line) else 0,
+            'unit_tangent': sg.unit_tangent(0.3), 'normal': sg.normal(0.3), 'curvature': sg.curvature(0.3), 'length': L, 'length(.2,.7)': sg.length(0.2, 0.7),
+            'ilength': sg.ilength(0.4 * L), 'bbox': tuple(sg.bbox()), 'poly': tuple(complex(c_) for c_ in sg.poly().coeffs), 'bpoints': tuple(sg.bpoints()),
+            'radialrange': tuple(tuple(x) for x in sg.radialrange(1 + 2j)), 'intersect': tuple(tuple(x) for x in sg.intersect(probe)),
+            'split': tuple(z for part in sg.split(0.4) for z in part.bpoints()), 'cropped': sg.cropped(0.2, 0.6).point(0.5), 'reversed': sg.reversed().point(0.3),
+            'reversed.length': sg.reversed().length(), 'translated': sg.translated(3 - 1j).point(0.3), 'scaled': sg.scaled(2).length(), 'rotated': sg.rotated(30).bbox(),
+            'repr': repr(sg), 'start/end': (sg.start, sg.end)}
+        return out
+
+    def near(a, b):
+        if isinstance(a, (tuple, list)) and isinstance(b, (tuple, list)):
+            return len(a) == len(b) and all(near(x, y) for x, y in zip(a, b))
+        if isinstance(a, str) or isinstance(b, str):
+            return a == b
+        try:
+            return abs(a - b) <= 1e-9 * max(1.0, abs(a), abs(b))
+        except TypeError:
+            return a == b
+    sets = {2: [((0j, -1 + 0j), (0j, -2 + 0j)), ((2 - 1j, 7 + 3j), (2 - 2j, 7 + 3j)), ((1j, 5 + 0j), (complex(1000003, 0), 5 + 0j)), ((0j, 3 + 4j), (1 + 1j, -4 + 3j))],
+            3: [((0j, 3 - 1j, 6 + 2j), (0j, 3 - 2j, 6 + 2j)), ((-1 + 0j, 2 + 5j, 8 + 1j), (-2 + 0j, 2 + 5j, 8 + 1j)), ((0j, 2 + 3j, 5 + 0j), (1 - 1j, 6 + 6j, 9 - 4j))],
+            4: [((0j, 1 - 1j, 4 + 3j, 6 + 0j), (0j, 1 - 2j, 4 + 3j, 6 + 0j)), ((0j, 2 + 5j, 5 + 5j, 7 - 1j), (0j, 2 + 5j, 5 + 5j, 7 - 2j)),
+                ((0j, 1 + 3j, 4 + 3j, 5 + 0j), (2 + 2j, -1 + 6j, 8 + 7j, 9 - 3j))]}
+    names = {2: ('start', 'end'), 3: ('start', 'control', 'end'), 4: ('start', 'control1', 'control2', 'end')}
+    cls = {2: sp.Line, 3: sp.QuadraticBezier, 4: sp.CubicBezier}
+    for n in (2, 3, 4):
+        for p1, p2 in sets[n]:
+            for how in ('attributes', 'path-setters'):
+                ck.case(fp=('query-sweep', n, str(p1), str(p2), how), nontrivial=True)
+                try:
+                    obj = cls[n](*p1)
+                    queries(obj)
+                    if how == 'attributes':
+                        for nm_, v_ in zip(names[n], p2):
+                            setattr(obj, nm_, v_)
+                    else:
+                        # only the end points can be moved through a Path; the inner control points are assigned directly
+                        host = sp.Path(obj)
+                        host.length(), host.bbox()
+                        for nm_, v_ in zip(names[n][1:-1], p2[1:-1]):
+                            setattr(obj, nm_, v_)
+                        host.start, host.end = p2[0], p2[-1]
+                    got, want = queries(obj), queries(cls[n](*p2))
+                except Exception as e:      # noqa
+                    ck.disagree(key='%s/query-sweep/raises-%s' % (cls[n].__name__, type(e).__name__), site='svgpathtools/path.py:%s' % cls[n].__name__,
+                                what='%s%r queried, control points set to %r via %s: %r' % (cls[n].__name__, p1, p2, how, e), case={'p1': [str(z) for z in p1], 'p2': [str(z) for z in p2], 'how': how},
+                                expected='answers', observed=repr(e), driver='query-sweep')
+                    continue
+                diff = [k_ for k_ in want if not near(got[k_], want[k_])]
+                if diff:
+                    ck.disagree(key='%s.%s/after-reassigning-control-points' % (cls[n].__name__, diff[0].split('(')[0]), site='svgpathtools/path.py:%s' % cls[n].__name__,
+                                what='%s%r queried, control points set to %r via %s: %s answer %r, a newly built segment answers %r' % (
+                                    cls[n].__name__, p1, p2, how, diff, [got[k_] for k_ in diff][:3], [want[k_] for k_ in diff][:3]),
+                                case={'p1': [str(z) for z in p1], 'p2': [str(z) for z in p2], 'how': how}, expected={k_: repr(want[k_]) for k_ in diff}, observed={k_: repr(got[k_]) for k_ in diff},
+                                driver='query-sweep')
+
+
 def hash_eq(ck):
     """objects that compare equal have equal hashes"""
     pairs = []
@@ -451,6 +516,7 @@ def run(ck):
     ck.count('histories_replayed', state['n'])
     segment_level(ck, rnd, 400 if quick else 4000)
     hash_eq(ck)
+    segment_query_sweep(ck)
     # V
     suite_traces(ck)
     traces = [[norm_event(h) for h in record_random(rnd, 60)] for _ in range(150 if quick else 1500)]
